@@ -600,7 +600,10 @@ def _path_envs(ctx):
     return envs
 
 
-def _numeric_witness(ctx, x, y):
+def _numeric_witness(ctx, x, y, floor=1e-7):
+    """a probe point at which x and y differ numerically; `floor` is the absolute part of the threshold: 1e-7 for hints
+    that must be reproducible by a float replay, far lower for the canary, which only asks whether two symbolic
+    expressions are different functions (outputs such as densities in a Gaussian tail are small everywhere)"""
     for env in _path_envs(ctx):
         try:
             a, b = ctx.numeric(x, env), ctx.numeric(y, env)
@@ -608,7 +611,7 @@ def _numeric_witness(ctx, x, y):
             continue
         if a != a or b != b:
             continue
-        if abs(a - b) > 1e-6 * (abs(a) + abs(b)) + 1e-7:
+        if abs(a - b) > 1e-6 * (abs(a) + abs(b)) + floor:
             return {n: Fraction(v).limit_denominator(10**6) for n, v in env.items()
                     if ctx.var_info.get(n, {}).get("kind") == "input"}
     return None
@@ -853,7 +856,7 @@ def _canary_path(case, ctx, I, mk, ops, pth, name):
                 if isinstance(fr[key], Claim):
                     continue
                 for (suf, x), (_, y) in zip(parts(ctx, v), parts(ctx, fr[key])):
-                    if _numeric_witness(ctx, x, y) is not None:
+                    if _numeric_witness(ctx, x, y, floor=1e-30) is not None:
                         return "killed"
         # nothing distinguishes the wrong oracles: acceptable only if the code's outputs are all the same
         # number at the probe points (e.g. identically zero by parity) - then the case is trivial, not vacuous
